@@ -1447,7 +1447,7 @@ func (c *coord) writeEvidence(violations int, replays []string) {
 		"runs_per_hour":                            int(float64(runs) / wall * 3600),
 		"seeds":                                    fmt.Sprintf("VERIF_SEED=%d; run i of worker w uses hash(VERIF_SEED, property, w, i)", c.seed),
 		"workers":                                  c.nworkers,
-		"components":                               "real: the whole library, encoding/json, regexp, reggen, fmt; wrapped (real primitive + simulator gate / yield point): sync.Mutex, sync.RWMutex, sync.Once, sync.WaitGroup, sync.Map, sync/atomic; replaced by a simulator-owned model: sync.Pool contents policy, sync.Cond, goroutine start and channel operations of the library (simulated tasks), map iteration order at range statements and sync.Map.Range, %p rendering, the clock (time.Now/Since/Until/Sleep), runtime.NumCPU/GOMAXPROCS; std sync.Pool never reuses under -race (overlay) so std pools add no happens-before edges; not simulated (the library has none): network, disk, timers",
+		"components":                               "real: the whole library, encoding/json, regexp, reggen, fmt; wrapped (real primitive + simulator gate / yield point): sync.Mutex, sync.RWMutex, sync.Once, sync.WaitGroup, sync.Map, sync/atomic; replaced by a simulator-owned model: sync.Pool contents policy, sync.Cond, goroutine start and channel operations of the library (simulated tasks), map iteration order at range statements and sync.Map.Range, %p rendering, the clock (time.Now/Since/Until/Sleep), timers and tickers (time.After/NewTimer/AfterFunc/NewTicker/Tick: discrete-event list, the clock jumps to the next deadline when no task can run) and context deadlines (context.WithTimeout/WithDeadline), runtime.NumCPU/GOMAXPROCS; real but operated without blocking and polled: channels the library did not make (a context's Done channel); std sync.Pool never reuses under -race (overlay) so std pools add no happens-before edges; not simulated (the library has none): network, disk",
 		"replays":                                  replays,
 		"exhaustive":                               false,
 	}
